@@ -1744,8 +1744,8 @@ mod srvlevel {
             tokio::time::sleep(Duration::from_millis(150)).await;
             // two connections inside the teardown window: one for w1's slot, one for the dead w0's slot
             let r1 = ask(addr, w).await;
+            let in_window = t_kill.elapsed() < Duration::from_millis(2000);
             let r2 = ask(addr, w).await;
-            let in_window = t_kill.elapsed() < Duration::from_millis(2300);
             // the replacement comes up and rejoins the rotation
             let t = Instant::now();
             while shared.instances.load(Ordering::SeqCst) < 3 && t.elapsed() < Duration::from_secs(12) {
